@@ -14,7 +14,7 @@ CONSTANTS
   Ep0 = 0
   T0 = 0
   A0 = 0
-  FixedServ = FALSE
+  FixedServ = TRUE
   MaxEp = 100000000
   MaxPay = 100000000
   MaxOps = 0
